@@ -12,7 +12,8 @@ PROPERTY = "C05"
 REDUCE_KEYS = ["part_a", "part_b"]
 LEVEL = "exploration"
 RULE = ("pairs (A, B) of generated structures (B independent or a copy of A, incl. ligands/ions, the copy keeping A's "
-        "chain ids with shifted residue numbers or getting fresh chain ids) x B moved by an exact grid motion so that "
+        "chain ids with shifted residue numbers or getting fresh chain ids; in one case of six a residue of A, B or "
+        "both carries alternate locations and all chains are numbered from one start) x B moved by an exact grid motion so that "
         "the bounding boxes are separated by a drawn gap along a drawn axis (25.001-30 A, 30-100 A, 100-999 A, "
         "1000-1500 A, up to the limit of the coordinate field with A pushed to the opposite corner) x both file "
         "orders; parts are separated by a TER record; every library ligand / ion alone as a part at 25-39 A from a "
@@ -88,7 +89,19 @@ def check_case(case):
         sub = {"error": None, "confs": {}}
         for c, conf in ru["confs"].items():
             sub["confs"][c] = {"groups": [g for g in conf["groups"] if g["key"] in inpart]}
-        diffs = observe.compare_records(sub, rp, tol=1e-9, keymap=km)
+        diffs = []
+        single = [c for c in rp["confs"] if c != "AVR"]
+        for c in sorted(sub["confs"]):
+            # a part with one conformation must show its results in every conformation of the union
+            tgt = c if c in rp["confs"] else (single[0] if len(single) == 1 else None)
+            if tgt is None:
+                diffs.append({"conf": c, "key": None, "label": None, "diffs": ["conformation only in the union"]})
+                continue
+            diffs += observe.compare_records({"error": None, "confs": {c: sub["confs"][c]}},
+                                             {"error": None, "confs": {c: rp["confs"][tgt]}}, tol=1e-9, keymap=km)
+        for c in rp["confs"]:
+            if c not in sub["confs"]:
+                diffs.append({"conf": c, "key": None, "label": None, "diffs": ["conformation only in the part alone"]})
         if diffs:
             v.append({"clause": "part-in-union==part-alone", "detail": "part %s: %s" % (part, common.fmt_diffs(diffs)),
                       "sig": common.twin_sig(union, [d["key"] for d in diffs])})
@@ -137,6 +150,15 @@ def pair_cases(draw, quick):
                     ren[a.chain] = pool[len(ren) % len(pool)]
         for a in pdbio.atoms_of(eb):
             a.chain = ren.get(a.chain, a.chain)
+    # two conformations: a residue of A, of B or of both carries alternate locations, and the chains of both parts are
+    # numbered from the same start, so that residue numbers of the two parts overlap
+    if mode != "copy-same-chains" and draw(st.integers(0, 5)) == 0:
+        which = draw(st.sampled_from(["A", "B", "AB"]))
+        start = draw(st.sampled_from([1, 1, 2, -5]))
+        ea, ca = gen.with_alternate_location(ea, draw(st.integers(0, 60)), renumber_from=start, add="A" in which)
+        eb, cb = gen.with_alternate_location(eb, draw(st.integers(0, 60)), renumber_from=start, add="B" in which)
+        if ca or cb:
+            mode += "+alt-loc"
     # motion of B: rotation + placement with a bounding-box gap along one axis
     rot = pdbio.ROTATIONS[draw(st.integers(0, 23))]
     eb = pdbio.move(eb, rot, (0, 0, 0))
